@@ -723,3 +723,37 @@ def check_C15(ctx):
                   "x modes and checks ordering/stability, combo-after-break, the closed forms and that processing commutes with shifting all times; "
                   "every case is replayed through HitObjects and Beatmap (a sample of them also shifted); the shift relation is evaluated on "
                   "bundled and generated files; non-trivial = distinct cases with a slider or a break")
+
+
+# ----------------------------------------------------------------------------
+def check_C01(ctx):
+    thorough = ctx.tier == "thorough"
+    for m in ("Reader", "Framing", "HitObjectLine"):
+        sany(ctx, m)
+    # (a) the model's part: the driver terminates on every short input under every schedule, errors come from the reader only
+    reader_run(ctx, "tiny", 5 if thorough else 4, "none", None, chunk=3, intr=1)
+    framing_cases(ctx, "SmallKinds", 4 if thorough else 3, emit=False)
+    # (b) every guard of the hit-object grammar as a line class, replayed under catch_unwind
+    for (a, n, ml) in [("num", 0, 2), ("bank", 0, 1), ("nodes", 0, 1), ("pathx", 3, 1), ("typesquick", 0, 1)]:
+        f = hitobj_cases(ctx, a, n, ml)
+        summ = harness(ctx, ["hitobj", "replay", "--prop", "C01", "--spellings", "1"], cases_file=f, name="hitobj-" + a, timeout=3600)
+        # only panics / hangs matter here; value mismatches are C14's
+        summ["mismatches"] = [m for m in summ.get("mismatches", []) if m.get("sig") in ("panic", "hang")]
+        summ["mismatch_count"] = len(summ["mismatches"])
+        summ["mismatch_sigs"] = {k: v for k, v in summ.get("mismatch_sigs", {}).items() if k in ("panic", "hang")}
+        report_mismatches(ctx, summ, "panic or hang while decoding a hostile hit-object line")
+    # (c) exploration: noise, hostile grammar, mutations / splices / truncations / encodings x nine decoders, both feature sets
+    iters = 400000 if thorough else 25000
+    summ = harness(ctx, ["c01", "explore", "--iters", str(iters)], name="c01-default", timeout=7000)
+    report_mismatches(ctx, summ, "decoding or re-encoding arbitrary bytes panics, hangs or returns an error (default features)")
+    summ = harness(ctx, ["c01", "explore", "--iters", str(iters // 4)], name="c01-tracing", timeout=7000, tracing=True)
+    report_mismatches(ctx, summ, "decoding or re-encoding arbitrary bytes panics, hangs or returns an error (tracing feature)")
+    ctx.exhaustive = False
+    ctx.assumptions += ["memory safety of the three unsafe blocks is not observable from safe Rust or TLA+ and is NOT claimed",
+                        "a hang is detected by a 20 s watchdog per input"]
+    return finish(ctx, "exploration",
+                  "the Reader and Framing models are re-checked for termination and error provenance (exhaustive on short inputs); hostile line "
+                  "classes generated from HitObjectLine.tla are replayed under catch_unwind; then seeded exploration: every bundled and "
+                  "hostile-generated file in four encodings, every truncation of the small ones, uniform and structured noise, and byte / line / "
+                  "field mutations and splices, each decoded by all nine decoder types, re-encoded (valid UTF-8) and decoded again, with curve "
+                  "accessors exercised, under the default and the tracing feature set; non-trivial = distinct inputs longer than 20 bytes")
